@@ -221,7 +221,7 @@ class Interp:
                 return self.library_name(full)
         return self.builtin_name(name)
 
-    LIB_FUNCS = {"binascii.hexlify", "binascii.unhexlify", "hashlib.sha256", "math.ceil", "os.urandom",
+    LIB_FUNCS = {"binascii.hexlify", "binascii.unhexlify", "binascii.b2a_hex", "binascii.a2b_hex", "hashlib.sha256", "math.ceil", "os.urandom",
                  "json.dumps", "json.loads", "itertools.count"}
 
     def library_name(self, full):
@@ -858,7 +858,7 @@ class Interp:
             return SBuiltin("int." + name, v)
         if isbyteslike(v) and name in ("decode", "hex", "join"):
             return SBuiltin("bytes." + name, v)
-        if isstrlike(v) and name in ("encode", "join"):
+        if isstrlike(v) and name in ("encode", "join", "zfill"):
             return SBuiltin("str." + name, v)
         if isinstance(v, list) and name in ("append", "extend"):
             if any(v is g for g in self.ctx.global_objs.values()):
@@ -1366,6 +1366,10 @@ class Interp:
                     continue
             raise Unsupported("concrete count() loop did not end")
         raise Unsupported("for loop over %r (line %d)" % (it, st.lineno))
+
+    def e_GeneratorExp(self, node, frame, pure):
+        # only consumed by join()/list()/tuple()/sum-free contexts in this code base: evaluated eagerly like a list
+        return self.e_ListComp(node, frame, pure)
 
     def e_ListComp(self, node, frame, pure):
         if len(node.generators) != 1 or node.generators[0].ifs or node.generators[0].is_async:
